@@ -185,8 +185,88 @@ def check(tier):
     run_s(rep, tier)
     from . import c11_glue
     c11_glue.run(rep, tier, 'felt')
+    product_clause(rep)
     native_validation(rep)
     return rep.finish()
+
+
+def product_clause(rep):
+    """intt(ntt(a) .* ntt(b)) = a*b also needs the pointwise step: Polynomial::<Felt>::hadamard_mul returns one canonical element per
+    slot, never panics (all operand vectors incl. zero ones; real MIR, engine M) and Felt multiplication is exact (the M part of C12:
+    product cut point, cvc5 integer encoding). Findings are replayed through the real fft -> hadamard_mul -> ifft chain."""
+    from . import c06_scen, c12_m
+    from ..mirsym import load_program
+    Qv = 12289
+
+    def neg_product(a, b):
+        n = len(a); out = [0] * n
+        for i, x in enumerate(a):
+            for j, y in enumerate(b):
+                k = i + j
+                if k < n: out[k] = (out[k] + x * y) % Qv
+                else: out[k - n] = (out[k - n] - x * y) % Qv
+        return out
+
+    def replay_product(kind, what, cases):
+        for a, b in cases:
+            want = ','.join(map(str, neg_product(a, b)))
+            req = ['ntt_mul', ','.join(map(str, a)), ','.join(map(str, b))]
+            dev, rel = replay.both(req); rep.replayed += 1
+            if dev != want or rel != want:
+                rep.violation(kind, '%s: intt(ntt(a) .* ntt(b)) for a=%s b=%s (n=%d) is dev=%s release=%s, the negacyclic product is %s'
+                              % (what, a[:4], b[:4], len(a), dev[:60], rel[:60], want[:60]), {'replay_request': req, 'expected': want, 'dev': dev[:200], 'release': rel[:200]})
+                return True
+        return False
+    rep.functions.append('Polynomial::<Felt>::hadamard_mul (real MIR, engine M) and <Felt as Mul>::mul (M, product cut point)')
+    try:
+        load_program(fresh=False)
+    except Exception as e:
+        rep.note_inconclusive('product clause: MIR not available (%s)' % str(e)[:100]); return
+    for n in (1, 2, 4):
+        try:
+            r = c06_scen.hadamard_scen(n, 'hadamard_mul', mul_contract=True)
+        except Exception as e:
+            rep.oblige(1, ok=False)
+            rep.note_inconclusive('hadamard_mul contract at n=%d: %s: %s' % (n, type(e).__name__, str(e)[:160])); continue
+        rep.states += r['paths']; rep.transitions += r['steps']; rep.queries += max(r['queries'], 1); rep.solver_s += r['solver_s']
+        rep.extra.setdefault('mir_hashes', {}).update(r['mir_hash'])
+        rep.oblige(max(r['obligations'] - r['violable'], 0)); rep.oblige(r['violable'], ok=False)
+        if r['returned'] == 0 and not r['panics']:
+            rep.note_inconclusive('vacuity: hadamard_mul contract at n=%d has no returning path' % n)
+        for bad in r['bad'] + [{'kind': 'panic obligation: ' + p['msg']} for p in r['panics']]:
+            zero = [0] * 8; some = list(range(1, 9))
+            cases = [(zero, some), (some, zero), (zero, zero), ([0], [5]), ([0] * 512, [1] * 512)]
+            if not replay_product('hadamard_mul', 'hadamard_mul (%s)' % bad['kind'], cases):
+                rep.note_inconclusive('hadamard_mul finding at n=%d (%s) does not show natively on zero operands' % (n, bad['kind']))
+            break
+    try:
+        r = c12_m.mul_scen('mul')
+    except Exception as e:
+        r = {'verdict': 'unknown', 'note': '%s: %s' % (type(e).__name__, str(e)[:160])}
+    rep.states += r.get('paths', 0); rep.transitions += r.get('steps', 0); rep.queries += r.get('queries', 0); rep.solver_s += r.get('solver_s', 0.0)
+    rep.sample({'engine': 'M', 'target': '<Felt as Mul>::mul', 'verdict': r.get('verdict'), 'decided_by': r.get('decided_by'), 'oracle': r.get('oracle')})
+    pairs = []
+    if r.get('verdict') == 'sat':
+        pairs.append((r['cex']['a'], r['cex']['b']))
+    for pnc in r.get('panics', []):
+        pval = (pnc.get('model') or {}).get('prod_1')
+        mm_ = pnc.get('model') or {}
+        if pval and mm_.get('a') and mm_.get('b') and mm_['a'] * mm_['b'] == pval:
+            pairs.append((mm_['a'], mm_['b']))
+        elif pval:
+            pr = next(((x, pval // x) for x in range(1, Qv) if pval % x == 0 and pval // x < Qv), None)
+            if pr: pairs.append(pr)
+    if r.get('verdict') == 'unsat' and not r.get('panics'):
+        rep.oblige(max(r.get('checks', 1), 1))
+    elif pairs:
+        rep.oblige(1, ok=False)
+        # constant polynomials have constant NTT vectors: every slot multiplies x by y
+        cases = [([x], [y]) for x, y in pairs] + [([x] + [0] * 511, [y] + [0] * 511) for x, y in pairs]
+        if not replay_product('felt_mul', 'Felt multiplication is not exact for %d * %d' % pairs[0], cases):
+            rep.note_inconclusive('Felt multiplication counterexample %s does not show through the transform chain natively' % (pairs[0],))
+    else:
+        # not decided here: C12 owns the field arithmetic; recorded, the NTT claims above do not depend on it
+        rep.parts['felt_mul_m_part'] = 'not conclusive here (%s); see C12' % (r.get('note') or r.get('verdict'))
 
 
 def native_validation(rep):
